@@ -1870,7 +1870,7 @@ hwloc__xml_import_diff(hwloc__xml_import_state_t state,
  * Return the reason why the object is invalid, or NULL.
  */
 static const char *
-hwloc__xml_verify_object(hwloc_obj_t obj, hwloc_bitmap_t gp_indexes)
+hwloc__xml_verify_object(hwloc_obj_t obj, hwloc_bitmap_t gp_indexes, hwloc_bitmap_t numa_indexes)
 {
   hwloc_obj_t child, other;
   const char *reason;
@@ -1893,6 +1893,8 @@ hwloc__xml_verify_object(hwloc_obj_t obj, hwloc_bitmap_t gp_indexes)
     if (obj->type == HWLOC_OBJ_NUMANODE
 	&& (hwloc_bitmap_weight(obj->complete_nodeset) != 1 || obj->memory_first_child))
       return "NUMA node with invalid complete_nodeset or memory child";
+    if (obj->type == HWLOC_OBJ_NUMANODE)
+      hwloc_bitmap_set(numa_indexes, obj->os_index);
 
     if (!obj->first_child && hwloc__obj_type_is_normal(obj->type) && obj->type != HWLOC_OBJ_PU
 	&& !hwloc_bitmap_iszero(obj->cpuset))
@@ -1926,21 +1928,21 @@ hwloc__xml_verify_object(hwloc_obj_t obj, hwloc_bitmap_t gp_indexes)
     if (!hwloc_bitmap_isincluded(child->complete_cpuset, obj->complete_cpuset)
 	|| !hwloc_bitmap_isincluded(child->complete_nodeset, obj->complete_nodeset))
       return "complete sets not included in parent complete sets";
-    if ((reason = hwloc__xml_verify_object(child, gp_indexes)) != NULL)
+    if ((reason = hwloc__xml_verify_object(child, gp_indexes, numa_indexes)) != NULL)
       return reason;
   }
   for(child = obj->memory_first_child; child; child = child->next_sibling) {
     if (!hwloc_bitmap_isincluded(child->complete_cpuset, obj->complete_cpuset)
 	|| !hwloc_bitmap_isincluded(child->complete_nodeset, obj->complete_nodeset))
       return "complete sets not included in parent complete sets";
-    if ((reason = hwloc__xml_verify_object(child, gp_indexes)) != NULL)
+    if ((reason = hwloc__xml_verify_object(child, gp_indexes, numa_indexes)) != NULL)
       return reason;
   }
   for(child = obj->io_first_child; child; child = child->next_sibling)
-    if ((reason = hwloc__xml_verify_object(child, gp_indexes)) != NULL)
+    if ((reason = hwloc__xml_verify_object(child, gp_indexes, numa_indexes)) != NULL)
       return reason;
   for(child = obj->misc_first_child; child; child = child->next_sibling)
-    if ((reason = hwloc__xml_verify_object(child, gp_indexes)) != NULL)
+    if ((reason = hwloc__xml_verify_object(child, gp_indexes, numa_indexes)) != NULL)
       return reason;
   return NULL;
 }
@@ -2085,8 +2087,12 @@ done:
     goto err;
   } else {
     hwloc_bitmap_t gp_indexes = hwloc_bitmap_alloc();
-    const char *reason = gp_indexes ? hwloc__xml_verify_object(root, gp_indexes) : "out of memory";
+    hwloc_bitmap_t numa_indexes = hwloc_bitmap_alloc();
+    const char *reason = (gp_indexes && numa_indexes) ? hwloc__xml_verify_object(root, gp_indexes, numa_indexes) : "out of memory";
+    if (!reason && !hwloc_bitmap_isequal(root->nodeset, numa_indexes))
+      reason = "root nodeset does not match the NUMA nodes";
     hwloc_bitmap_free(gp_indexes);
+    hwloc_bitmap_free(numa_indexes);
     if (reason) {
       if (hwloc__xml_verbose())
 	fprintf(stderr, "%s: invalid object sets or indexes: %s\n",
